@@ -1,5 +1,7 @@
 import Proofs.C11.Combine
 import Proofs.C11.Roles
+import Proofs.C11.Perm
+import Proofs.C11.Modifiable
 /-!
 # C11 — PSBT roles are lossless, order-independent, never alias their arguments
 
@@ -69,17 +71,18 @@ theorem ident_lengths {v : Nat} {p : Psbt} {id : UTx} (h : identOf v p = .ok id)
   · cases h
   · cases h; simp
 
-/-- T2 order-independence (partial: see below): on operands that do not conflict, two orders of the
-    operand list that `combine` both accepts give the same psbt — same header, and at every location
-    of the generated universe the same content as `serialize` reads it (tx_modifiable: bit rule, tied
-    by correspondence).
-    FULL statement, not proved here: `combine ps = .ok r → ∃ r', combine ps' = .ok r' ∧ …` — that the
-    version / identifier / participants checks pass for `ps'` IS proved (`combine_perm_accepts_checks`);
-    missing is that the final identifier re-check (added to btclib while this was built) passes for
-    the other order too; the correspondence streams compare acceptance for every order. -/
-theorem combine_perm_partial {ps ps' : List Psbt} {r r' : Psbt} (hc : Compatible ps) (hp : ps.Perm ps')
-    (h : combine ps = .ok r) (h' : combine ps' = .ok r') :
-    r'.version = r.version ∧ r'.nIn = r.nIn ∧ r'.nOut = r.nOut ∧
+/-- T2 (tables): what the identifier reads is never settled by the bit rule; an unmerged one is in the
+    generated identifier reads; a merged one serialised by truthiness is read only through
+    `falsy` / `or 0` / as bytes — so the identifier cannot tell two orders apart. -/
+theorem id_tables_ok : idLocTable = true := by decide
+
+/-- T2 order-independence, in full: on operands that do not conflict, if `combine` accepts one order of
+    the operand list it accepts every order (version, identifier, participants and the final identifier
+    re-check included) and returns the same psbt — same header, and at every location of the generated
+    universe the same content as `serialize` reads it (tx_modifiable: `modifiable_perm`). -/
+theorem combine_perm {ps ps' : List Psbt} {r : Psbt} (hc : Compatible ps) (hp : ps.Perm ps')
+    (h : combine ps = .ok r) :
+    ∃ r', combine ps' = .ok r' ∧ r'.version = r.version ∧ r'.nIn = r.nIn ∧ r'.nOut = r.nOut ∧
       ∀ l f, specAt l = some f → f.presence ≠ .never → ruleAt l ≠ some .modifiable →
         norm (tAt l) (r'.slot l) = norm (tAt l) (r.slot l) := by
   obtain ⟨hU, hC, hM⟩ := tables_ok
@@ -90,20 +93,34 @@ theorem combine_perm_partial {ps ps' : List Psbt} {r r' : Psbt} (hc : Compatible
     | nil => exact absurd hp.length_eq (by simp)
     | cons p0' rest' =>
       obtain ⟨id0, hck⟩ := checks_of_combine_ok h
-      rw [combine_ok_fold h, combine_ok_fold h']
-      refine ⟨?_, ?_, ?_, ?_⟩
-      · rw [(foldl_step_hdr _ _).1, (foldl_step_hdr _ _).1]
+      have hck' : Checks p0.version id0 (p0' :: rest') := fun p hp' => hck p (hp.mem_iff.mpr hp')
+      have hc' := hc.perm hp
+      have hfold := combine_ok_fold h
+      have hnin : p0'.nIn = p0.nIn := by
+        rw [← (ident_lengths (hck p0 (by simp)).2).1, ← (ident_lengths (hck p0' (hp.mem_iff.mpr (by simp))).2).1]
+      have hnout : p0'.nOut = p0.nOut := by
+        rw [← (ident_lengths (hck p0 (by simp)).2).2, ← (ident_lengths (hck p0' (hp.mem_iff.mpr (by simp))).2).2]
+      have hpost : Gen.Combine.combineRechecksIdentity = true →
+          identOf p0.version (rest'.foldl step (baseOf p0' rest')) = .ok id0 := by
+        intro hf
+        have hid : identOf p0.version r = .ok id0 := by
+          rw [combine_of_checks hck] at h
+          exact postCheck_ident h hf
+        rw [← hid, hfold]
+        unfold identOf
+        apply unsignedTx_congr_weak
+        · rw [(foldl_step_hdr _ _).2.1, (foldl_step_hdr _ _).2.1]; exact hnin
+        · rw [(foldl_step_hdr _ _).2.2, (foldl_step_hdr _ _).2.2]; exact hnout
+        · exact fun l hl => fold_slotRel hU hC hM id_tables_ok hc hp l hl
+      refine ⟨_, combine_eq' hU hC hM hck' hc' hpost, ?_, ?_, ?_, ?_⟩
+      · rw [hfold, (foldl_step_hdr _ _).1, (foldl_step_hdr _ _).1]
         simp only [baseOf, setSlot]
         rw [(hck p0' (hp.mem_iff.mpr (by simp))).1]
-      · rw [(foldl_step_hdr _ _).2.1, (foldl_step_hdr _ _).2.1]
-        simp only [baseOf, setSlot]
-        rw [← (ident_lengths (hck p0 (by simp)).2).1, ← (ident_lengths (hck p0' (hp.mem_iff.mpr (by simp))).2).1]
-      · rw [(foldl_step_hdr _ _).2.2, (foldl_step_hdr _ _).2.2]
-        simp only [baseOf, setSlot]
-        rw [← (ident_lengths (hck p0 (by simp)).2).2, ← (ident_lengths (hck p0' (hp.mem_iff.mpr (by simp))).2).2]
+      · rw [hfold, (foldl_step_hdr _ _).2.1, (foldl_step_hdr _ _).2.1]; exact hnin
+      · rw [hfold, (foldl_step_hdr _ _).2.2, (foldl_step_hdr _ _).2.2]; exact hnout
       · intro l f hf hpres hmod
         have hMod : ruleAt modLoc = some .modifiable := by simpa [modifiableIsAssigned] using hM
-        rw [foldl_step_slot, foldl_step_slot]
+        rw [hfold, foldl_step_slot, foldl_step_slot]
         cases hr : ruleAt l with
         | none =>
           have hl : l ≠ modLoc := by intro c; rw [c, hMod] at hr; cases hr
@@ -120,16 +137,23 @@ theorem combine_perm_partial {ps ps' : List Psbt} {r r' : Psbt} (hc : Compatible
                 exact hp.map _)
           exact this.symm
 
-/-- T2, the part of acceptance that is order-independent: if one order passes the version and identifier
-    checks, every order does, and compatible operands are never refused by the participants check. -/
-theorem combine_perm_accepts_checks {p0 p0' : Psbt} {rest rest' : List Psbt} {r : Psbt}
-    (hc : Compatible (p0 :: rest)) (hp : (p0 :: rest).Perm (p0' :: rest')) (h : combine (p0 :: rest) = .ok r) :
-    ∃ id0, Checks p0.version id0 (p0' :: rest') ∧
-      combineFold (baseOf p0' rest') rest' = .ok (rest'.foldl step (baseOf p0' rest')) := by
-  obtain ⟨hU, hC, hM⟩ := tables_ok
-  obtain ⟨id0, hck⟩ := checks_of_combine_ok h
-  exact ⟨id0, fun p hp' => hck p (hp.mem_iff.mpr hp'),
-    combineFold_eq rest' _ (fun pre p suf e => no_conflict hU hC hM (hc.perm hp) e)⟩
+/-- T2 for tx_modifiable: the flags `_combined_tx_modifiable` settles do not depend on the order. -/
+theorem modifiable_perm {l l' : List (Option Nat)} (p : l.Perm l') :
+    combinedModifiable l = combinedModifiable l' := combinedModifiable_perm p
+
+/-- the bit rule (all flag values): the modifiable bits of the combined flags are bits of BOTH operands,
+    every other bit of EITHER operand is a bit of the result — no more permissive than either half and
+    no flag dropped; an absent field counts as "nothing may be modified". -/
+theorem modifiable_bit_rule (a b m : Nat) (h : combinedModifiable [some a, some b] = some m) :
+    (m &&& modBits) &&& a = m &&& modBits ∧ (m &&& modBits) &&& b = m &&& modBits ∧
+    (a &&& (0xFF ^^^ modBits)) &&& m = a &&& (0xFF ^^^ modBits) ∧
+    (b &&& (0xFF ^^^ modBits)) &&& m = b &&& (0xFF ^^^ modBits) := by
+  rw [combinedModifiable_pair'] at h
+  cases h
+  rw [modBits_eq.1]
+  have e : (255 ^^^ 3 : Nat) = 252 := by decide
+  rw [e]
+  exact ⟨pair_mod_left a b, pair_mod_right a b, pair_other_left a b, pair_other_right a b⟩
 
 /-- T2 re-bracketing: combining a partial result with further operands is combining all of them at
     once, slot for slot (exactly, no proviso) — whenever the three combines are accepted (acceptance of
@@ -274,6 +298,18 @@ theorem role_preserves_tx {p q : Psbt} (hi : p.nIn = q.nIn) (ho : p.nOut = q.nOu
 
 /-- T5: `to_v2` changes neither the transaction nor the identifier's transaction. -/
 theorem toV2_preserves_tx (p : Psbt) (b : Bool) : unsignedTx (toV2 p) b = unsignedTx p b := rfl
+
+/-- T5: `to_v0` writes BIP370's computed lock time where version 0 keeps it, drops the required lock
+    times and the flags — and the result is of the same unsigned transaction (and `to_v2` of it again). -/
+theorem toV0_preserves_tx {p q : Psbt} (h : toV0 p = .ok q) (b : Bool) :
+    unsignedTx q b = unsignedTx p b ∧ unsignedTx (toV2 q) b = unsignedTx p b :=
+  ⟨toV0_tx h b, toV0_tx h b⟩
+
+-- BIP370's determination: heights win the tie; a height on one input and a time on another is refused
+example : lockTimeOf [(some 50, some 1700000000), (some 60, some 1700000001)] (some 7) = .ok 60 := by decide
+example : lockTimeOf [(some 50, some 1700000000), (none, some 1700000001)] (some 7) = .ok 1700000001 := by decide
+example : lockTimeOf [(some 50, none), (none, some 1700000001)] (some 7) = .error .value := by decide
+example : lockTimeOf [(none, none)] (some 7) = .ok 7 := by decide
 
 /-! ### T6 — a signer's answer -/
 
